@@ -57,11 +57,9 @@ def specEval (T : Tr) (name : String) (agg : Vec → XR) (os fs : List Rat) : Op
 def detOne (name agg obs fcst : String) : Option String := do
   let aggf ← aggByName floatTr agg
   let (obs, fcst) := (← parseVec? obs, ← parseVec? fcst)
-  if name == "corr" then
-    some (toString (computeFromObsFcst (corr floatTr) obs fcst))
-  else if name == "kge" then
-    some (toString (computeFromObsFcst (kge floatTr) obs fcst))
-  else if name == "rankcorr" then
+  -- corr and kge are machine-translated (Gen.Det.m_corr / m_kge, np.corrcoef as the primitive corrCore) and go
+  -- through detScore like the other translated formulas; GenEq.Det.corr_eq / kge_eq: = the models `corr` / `kge`
+  if name == "rankcorr" then
     some (toString (computeFromObsFcst (rankcorr floatTr) obs fcst))
   else if name == "kendallcorr" then
     some (toString (computeFromObsFcst (kendallcorr floatTr) obs fcst))
